@@ -337,6 +337,51 @@ func checkC02(p *Prog, r *Report) {
 		r.Check(bad == "", "decode stage: no liveness refresh before the message is handed to handleInbound", p.Pos(f.Body.Pos()), fmt.Sprintf("%d resolved callees, none writes candidateBase.lastReceived", nCalls), "in handleInboundSTUNMessage "+bad+" before the message was decoded, filtered and authenticated: any STUN-looking datagram from a cached source (wrong USERNAME, broken MESSAGE-INTEGRITY, error response) keeps a dead peer 'alive'")
 	}
 
+	// ---- R2.9 the USERNAME test is an exact comparison ---------------------------------------------------------------
+	r.Rule("R2.9", "AssertUsername reports success only where the decoded USERNAME attribute, as a whole, equals the expected string: every nil result is dominated by a successful decode and by that one equality (no prefix, fragment-wise or case-insensitive acceptance).", 1)
+	if f := p.Fn("stun.AssertUsername"); r.Anchor("stun.AssertUsername", f != nil) {
+		exp := p.paramObj(f, 1)
+		ok, n := true, 0
+		walkBody(f, func(x ast.Node) bool {
+			rs, isR := x.(*ast.ReturnStmt)
+			if !isR || len(rs.Results) != 1 || !p.isNilExpr(rs.Results[0]) {
+				return true
+			}
+			n++
+			facts := p.DominatingFactList(f, rs)
+			decoded := factListHas(facts, func(ft Fact) bool {
+				if ft.Op != "==" || !ft.Val || ft.Y == nil || !p.isNilExpr(ft.Y) {
+					return false
+				}
+				c, _, okC := p.ResolveCall(f, ft.X)
+				return okC && strings.HasSuffix(p.CalleeName(c), "Username.GetFrom")
+			})
+			whole := factListHas(facts, func(ft Fact) bool {
+				if ft.Op != "==" || !ft.Val || ft.Y == nil {
+					return false
+				}
+				side := func(a, b ast.Expr) bool {
+					if !p.isObj(a, exp) {
+						return false
+					}
+					// the other side: the decoded attribute converted to a string, nothing else
+					cv, isC := unparen(b).(*ast.CallExpr)
+					if !isC || p.ConvTarget(cv) != "string" || len(cv.Args) != 1 {
+						return false
+					}
+					id, isID := unparen(cv.Args[0]).(*ast.Ident)
+					return isID && typeStr(p.TypeOf(id)) == "stun.Username"
+				}
+				return side(ft.X, ft.Y) || side(ft.Y, ft.X)
+			})
+			if !decoded || !whole {
+				ok = false
+			}
+			return true
+		})
+		r.Check(ok && n > 0, "AssertUsername: success only on exact equality", p.Pos(f.Body.Pos()), "return nil dominated by GetFrom == nil and string(username) == expected", "AssertUsername can report success without the whole USERNAME attribute being equal to the expected value: requests with another USERNAME (a suffix, another generation's ufrag) pass the only USERNAME gate of the request handler")
+	}
+
 	// ---- R2.6 Restart ends the generation ------------------------------------------------------
 	r.Rule("R2.6", "Restart replaces both credential pairs, resets gathering state, checklist, pair index and outstanding transactions with fresh empty values, clears the selection, deletes all candidates and re-creates the selector; every mutable collection field of Agent that is written after construction is covered by Restart.", 12)
 	checkRestartWipe(p, r)
